@@ -247,6 +247,13 @@ def render(d):
     L.append("/-- the buffer-rotation block at the end of the loop body -/")
     L.append("def rotation : List TupleAssign := [" + ", ".join("{ lhs := " + sl(a) + ", rhs := " + sl(b) + " }" for a, b in d["rotation"]) + "]")
     L.append(f"def rotNames : List String := {sl(names)}")
+    perm = [(a, b) for a, b in d["rotation"] if sorted(a) == sorted(b) and len(set(a)) == len(a)]
+    pnames = [x for a, _ in perm for x in a]
+    L.append("/-- the assignments of the rotation block that permute buffers written in place (`out=` kernels); the remaining ones")
+    L.append("    (`zvec_*`, `qvec_*`) shift in tensors that are freshly allocated in every iteration -/")
+    L.append("def rotPerm : List TupleAssign := [" + ", ".join("{ lhs := " + sl(a) + ", rhs := " + sl(b) + " }" for a, b in perm) + "]")
+    L.append(f"def rotPermNames : List String := {sl(pnames)}")
+    L.append("def rotShift : List TupleAssign := [" + ", ".join("{ lhs := " + sl(a) + ", rhs := " + sl(b) + " }" for a, b in d["rotation"] if (a, b) not in perm) + "]")
     L.append(f"def loopIter : String := {lean_str(d['loop_iter'])}")
     L.append(f"def checkTest : String := {lean_str(d['check_test'])}")
     L.append(f"def checkBody : List String := {sl(d['check_body'])}")
